@@ -594,6 +594,15 @@ func (r *Run) onQuiescent() {
 		return nil
 	})
 	if err != nil {
+		r.mu.Lock()
+		restoreInvolved := r.restoring != nil || r.restores > 0
+		r.mu.Unlock()
+		if restoreInvolved {
+			// a read transaction started while no restore holds the lock must see the old or the new database
+			r.violate(Violation{Props: []string{"C17"}, Oracle: "snapshot", Sig: "view-fails-around-restore",
+				Detail: "a read transaction begun while the restore did not hold the reload lock failed: " + err.Error()})
+			return
+		}
 		r.s.HarnessError("oracle view: " + err.Error())
 		r.s.Abort("harness-error")
 		return
